@@ -145,8 +145,8 @@ class C10(core.Check):
         "tools/driver/driver.ml (int <-> Z conversion, line I/O)",
         "hand-written model Model/Edit.v of edit.py, numedit.py and text_layout.calc_coords/calc_pos/calc_line_pos/"
         "shift_line (validated by the per-event correspondence, not proved against Python)",
-        "the layout structures, character widths and str.upper values sent to the model are those computed by the "
-        "implementation (StandardTextLayout.layout, str_util.get_char_width, str.upper): layout correctness is C03's, "
+        "the layout structures, character widths and str.upper / str.lower values sent to the model are those computed by the "
+        "implementation (StandardTextLayout.layout, str_util.get_char_width, str.upper, str.lower): layout correctness is C03's, "
         "width arithmetic C11's",
         "Python oracle in harness/props/c10.py (naive reference editor + cell map built from the layout structure + "
         "the rendered canvas)",
@@ -159,9 +159,10 @@ class C10(core.Check):
         "render cache: the caller keeps only the most recently returned canvas alive (as a screen does), so a render "
         "is served from CanvasCache exactly when the previous render had the same (width, focus) and nothing was "
         "invalidated since",
-        "numeric_alphabet_inv for NumEdit/IntegerEdit/FloatEdit assumes str.upper maps no foreign character into the "
-        "allowed string (upper_honest); false for U+017F, U+0131, U+FB05, U+FB06: numeric_alphabet_inv_refuted + "
-        "KNOWN finding C10-numedit-upper",
+        "numeric_alphabet_inv_NumEdit_code needs nothing about str.upper/str.lower; its restatement over the alphabet "
+        "(numeric_alphabet_inv_NumEdit) needs lower_honest: a character equal to lower(upper(c)) with upper(c) occurring "
+        "in the allowed string is in the alphabet; checked for the real str.upper/str.lower over all code points for "
+        "every alphabet the generators use, every run (extra_checks)",
         "part-2 theorems (cursor_cell, cursor_visible, click_cell, row_home/row_end_*) speak about layout rows of the "
         "stated shape (text segment as wide as its text, only a leading pad negative); how often real layouts have "
         "it is counted in the evidence (hyp:* counters: always, in every run so far)",
@@ -177,17 +178,17 @@ class C10(core.Check):
                   "from the text before to the text after (signals_order); a key returned unhandled leaves text and "
                   "offset unchanged and emits nothing, and rejected key strings / tab without allow_tab / enter without "
                   "multiline come back with the whole state untouched (unhandled_returned); IntEdit texts are digits; "
-                  "NumEdit/IntegerEdit/FloatEdit texts stay in the alphabet apart from one leading minus UNDER an "
-                  "explicit hypothesis on str.upper (numeric_alphabet_inv_*), and the clause without that hypothesis is "
-                  "refuted for any upper with upper(U+017F)='S' (numeric_alphabet_inv_refuted; replayed on the "
-                  "implementation: KNOWN finding); the leading-zero loop has enough fuel.  Over layout rows of a stated "
+                  "NumEdit/IntegerEdit/FloatEdit: apart from one leading minus every character of the text passed the "
+                  "test the code applies (upper(c) in allowed and c in {upper(c), lower(upper(c))}) with NO hypothesis on "
+                  "upper/lower (numeric_alphabet_inv_NumEdit_code), hence lies in the alphabet under the one remaining "
+                  "hypothesis lower_honest, which the harness checks for the real str.upper/str.lower over all code "
+                  "points every run (numeric_alphabet_inv_NumEdit); the leading-zero loop has enough fuel.  Over layout rows of a stated "
                   "shape: the cursor of a shown offset is the cell where the layout shows it (cursor_cell), shifted into "
                   "the w columns at clamp(x,0,w-1) in a focused view (cursor_visible), a click on any column of a "
                   "character's cell selects that character (click_cell, column_to_offset), home/end go to the first / "
                   "last offset of the row (row_home, row_end_*).  NOT theorem-backed (correspondence / oracle only): "
                   "bytes mode and other encodings (offset on a character boundary; oracle on a bytes stream), the drawn "
-                  "canvas (cursor cell holds the character at the offset - KNOWN finding for a stale cached Text canvas "
-                  "-, rows() == canvas rows, render never raises), that real layouts have the assumed row shape "
+                  "canvas (cursor cell holds the character at the offset, rows() == canvas rows, render never raises), that real layouts have the assumed row shape "
                   "(counted), the preferred-column semantics of up/down beyond what the reference editor states; "
                   "highlight is not covered.")
     level_note = ("Trusted: Coq kernel, extraction + OCaml driver, the hand-written model Model/Edit.v (tied to the code by "
@@ -372,6 +373,10 @@ class C10(core.Check):
         l.append(len(ups))
         for c in ups:
             l += [ord(c)] + enc_list(cps(c.upper()))
+        lows = sorted({c.upper() for c in ups})
+        l.append(len(lows))
+        for u in lows:
+            l += enc_list(cps(u)) + enc_list(cps(u.lower()))
         for st, lay in zip(case["steps"], lays):
             kind = st[0]
             if kind == "key":
@@ -478,7 +483,6 @@ class C10(core.Check):
         rt = case["text"]        # str reference (characters), used in bytes mode too
         prefs = None             # None = "the current cursor column"; else {"cols": [...], "w": width, "cur_ok": bool}
         prev_focus_render_w = None
-        rendered_w = set()       # widths rendered since the last change of text/offset (their canvases may be cached)
         alpha = self._alphabet(v) if numeric else None
 
         def width(c):
@@ -559,17 +563,15 @@ class C10(core.Check):
                     msgs.append(f"{tag}: set_edit_pos({st[1]}) gave offset {np_}, expected {ep}")
                     return msgs
                 p, prefs = ep, None
-                rendered_w = set()
             elif kind in ("render", "prefcol"):
                 if nt != t or np_ != p:
                     msgs.append(f"{tag}: {kind} changed the text or the offset")
                     return msgs
                 if kind == "render":
-                    m = self._judge_render(tag, st, so, ob, rows, q, w, disp_before, isb, w in rendered_w)
+                    m = self._judge_render(tag, st, so, ob, rows, q, w, disp_before, isb)
                     if m:
                         msgs.append(m)
                         return msgs
-                    rendered_w.add(w)
             elif kind == "click":
                 handled = so["ret"] == ["bool", True]
                 if nt != t:
@@ -604,7 +606,6 @@ class C10(core.Check):
                 p = np_
                 if handled:
                     prefs = {"cols": [st[2]], "w": w, "cur_ok": True}
-                    rendered_w = set()
             elif kind == "key":
                 name = st[1]
                 handled = so["ret"] == ["handled"]
@@ -616,9 +617,7 @@ class C10(core.Check):
                 if m:
                     msgs.append(m)
                     return msgs
-                if handled:
-                    rendered_w = set()
-                elif prefs is not None and prefs != "unknown":
+                if not handled and prefs is not None and prefs != "unknown":
                     prefs = dict(prefs, cur_ok=True)     # an unhandled key may or may not reset the preferred column
             prev_focus_render_w = w if (kind == "render" and st[1]) else None
             t = nt
@@ -634,7 +633,7 @@ class C10(core.Check):
                     return msgs
         return msgs
 
-    def _judge_render(self, tag, st, so, ob, rows, q, w, disp, isb, maybe_cached):
+    def _judge_render(self, tag, st, so, ob, rows, q, w, disp, isb):
         from urwid import str_util
         ret = so["ret"]
         canvas = ob.get("canvas")
@@ -676,8 +675,7 @@ class C10(core.Check):
                         break
                     col += cw_
                 if under != ch:
-                    return (f"{tag}: the cursor cell ({x},{y}) shows {under!r}, the character at the offset is {ch!r}"
-                            + (" [a canvas rendered at this width since the last change is still cached]" if maybe_cached else ""))
+                    return f"{tag}: the cursor cell ({x},{y}) shows {under!r}, the character at the offset is {ch!r}"
         return None
 
     def _judge_key(self, tag, case, name, handled, t, p, rt, nt, np_, rows, cap_len, w, prefs, numeric, alpha, isb, enc):
@@ -880,7 +878,7 @@ class C10(core.Check):
     def signature(self, case, msg):
         m = re.sub(r"step#\d+ ", "", msg)
         m = re.sub(r"'[^']*'", "S", m)
-        return re.sub(r"-?\d+", "N", m)[:90] + ("[cached]" if "still cached]" in msg else "")
+        return re.sub(r"-?\d+", "N", m)[:90]
 
     def distribution(self, case, res, dist):
         def inc(k, n=1):
@@ -1118,7 +1116,34 @@ class C10(core.Check):
                 self.distribution(c, res, ev["dist"])
                 for m in self.oracle(c, res):
                     out.append((c, m))
-        # 2. model assumption: no method assigns a non-None value to self.highlight
+        # 2. the hypothesis of numeric_alphabet_inv_NumEdit (lower_honest) for the real str.upper / str.lower,
+        #    over ALL code points, for every alphabet the generators use
+        maximal = [ALLOWED, "0123456789.", "0123456789,", "STU012"]
+        cands = []
+        for cp in range(0x110000):
+            if 0xD800 <= cp <= 0xDFFF:
+                continue
+            c = chr(cp)
+            up = c.upper()
+            if up != c and up.lower() == c and any(up in m for m in maximal):
+                cands.append(c)
+        alphabets = [ALLOWED[:b] for b in range(2, 37)] + ["0123456789.", "0123456789,", "01", "0123456789ABCDEF", "STU012"]
+        nbad = 0
+        for al in alphabets:
+            for c in cands:
+                if c.upper() in al:
+                    au = chr(ord(c) - 32) if "a" <= c <= "z" else c
+                    if not (c in al or au in al):
+                        nbad += 1
+                        case = {"variant": ["num", cps(al), 0, 0], "caption": "", "text": "", "pos": None, "multiline": False,
+                                "allow_tab": False, "mask": None, "wrap": "space", "align": "left", "steps": [["key", c, 9]]}
+                        res = self.run_impl(case)
+                        ms = self.oracle(case, res) or [f"lower_honest is false for str.upper/str.lower: U+{ord(c):04X} with allowed {al!r}"]
+                        out.extend((case, m) for m in ms)
+        ev["dist"]["hyp:lower_honest-alphabets-checked-over-all-code-points"] = len(alphabets)
+        ev["dist"]["hyp:lower_honest-candidate-characters"] = len(cands)
+        ev["dist"]["hyp:lower_honest-violations"] = nbad
+        # 3. model assumption: no method assigns a non-None value to self.highlight
         bad = []
         for rel in ("urwid/widget/edit.py", "urwid/numedit.py"):
             tree = ast.parse(open(os.path.join(core.REPO, rel)).read())
